@@ -98,14 +98,16 @@ func fieldInvoke(ins ssa.Instruction, named *types.Named, field, name string) *s
 }
 
 func runC10(c *core.Ctx) {
-	runFixtures(c, "drop")
-	c.Explain("Structural clauses of C10 decided from source (thin: byte/metadata equality with the source is behaviour): (R10.1) in the cache FS's Open the source is opened for content only under the ErrNotExist edge of the cache look-up of the same name, every other look-up error returns; (R10.2) on every path after a successful fill the returned handle was rewound with a successful SeekFile(f, 0, SeekStart) or is re-opened from the cache; (R10.3) the memoised FileInfo stored in the info table is the result of Stat() on a handle obtained from the source, stored only on its nil-error edge, under the name it was asked for; (R10.4) the cache's directory handle lists through the source file system and stats through the same memoised Stat. (R10.5) the fill removes the cache file on every failing exit after creating it and reads the Close error of the file it wrote (a store that commits on Close can fail there) — otherwise a later Open is served a truncated copy that differs from the source. NOT claimed: that returned names, kinds, sizes, modes and bytes equal the source's; 'without reading the source again' beyond the ordering; the RetainData policy.")
+	runFixtures(c, "drop", "read")
+	c.Explain("Structural clauses of C10 decided from source (thin: byte/metadata equality with the source is behaviour): (R10.1) in the cache FS's Open the source is opened for content only under the ErrNotExist edge of the cache look-up of the same name, every other look-up error returns; (R10.2) on every path after a successful fill the returned handle was rewound with a successful SeekFile(f, 0, SeekStart) or is re-opened from the cache; (R10.3) the memoised FileInfo stored in the info table is the result of Stat() on a handle obtained from the source, stored only on its nil-error edge, under the name it was asked for; (R10.4) the cache's directory handle lists through the source file system and stats through the same memoised Stat. (R10.5) the fill removes the cache file on every failing exit after creating it and reads the Close error of the file it wrote (a store that commits on Close can fail there) — otherwise a later Open is served a truncated copy that differs from the source. (R10.7) the table in which the fill marks a partial file it could not remove is consulted in Open before the cache look-up, and an entry leaves it only on paths on which Remove of the cache file answered nil or ErrNotExist; (R10.6) every direct Read call in package cache is a delegation or a loop left only on an error / a full buffer whose successful returns looked at the latest count (a source may legally return short counts; a hand-written copy that stops at the first short block caches a prefix). NOT claimed: that returned names, kinds, sizes, modes and bytes equal the source's; 'without reading the source again' beyond the ordering; the RetainData policy.")
 	c.Assume("A1: FS contract of source and cache file systems")
 	c.RuleDoc("R10.1", "cache look-up before source; only ErrNotExist falls through")
 	c.RuleDoc("R10.2", "handle returned after a fill starts at offset 0")
 	c.RuleDoc("R10.3", "memoised info comes from the source")
 	c.RuleDoc("R10.4", "directory handle lists the source")
 	c.RuleDoc("R10.5", "a copy that was not written and closed successfully does not stay in the cache")
+	c.RuleDoc("R10.7", "a partial copy that could not be removed stays marked until it is removed")
+	c.RuleDoc("R10.6", "the fill does not take a short count (or one Read) for the whole file")
 	for _, p := range c.Progs {
 		c.SetProg(p)
 		sh := findCacheShape(p)
@@ -149,8 +151,12 @@ func runC10(c *core.Ctx) {
 		if sh.lockField != "" {
 			r11Fill(c, p, sh, "R10.5", "R10.5")
 		}
+		// R10.6: the copy into the cache does not take a short count for the end of the file
+		readDiscipline(c, p, "R10.6", pkgFuncs(p, "cache"))
+		r10NeverServeMark(c, p, sh)
 	}
 	c.Floor("R10.5", 2)
+	c.Floor("R10.7", 2)
 	c.Floor("R10.1", 1)
 	c.Floor("R10.2", 1)
 	c.Floor("R10.3", 1)
@@ -602,5 +608,117 @@ func r11NoSharedBuffer(c *core.Ctx, p *load.Program, sh *cacheShape) {
 		})
 		c.Check(bad == "", "R11.4", key, p.Pos(fn.Pos()), "the fill works on local buffers only",
 			fmt.Sprintf("%s uses the slice %s, which all fills share, while only the per-path lock is held: fills of two different names run concurrently and overwrite each other's bytes in it, so a cached copy can hold another file's content", fname(fn), bad))
+	}
+}
+
+// r10NeverServeMark (R10.7): the table in which the fill records "the partial cache file could not be removed" (the
+// sync.Map field the fill stores into) is consulted in Open before the cache look-up, and an entry is taken out of it
+// only on paths on which the cache file was removed successfully (Remove answered nil or ErrNotExist). A mark dropped
+// before the removal is known to have worked lets the next Open find the leftover in the cache and serve the
+// truncated bytes for ever.
+func r10NeverServeMark(c *core.Ctx, p *load.Program, sh *cacheShape) {
+	tk := typeKey(sh.named)
+	syncMapField := func(v ssa.Value) string {
+		fa, ok := v.(*ssa.FieldAddr)
+		if !ok {
+			return ""
+		}
+		if n := ssax.StructOfFieldAddr(fa); n == nil || !types.Identical(n, sh.named) {
+			return ""
+		}
+		return ssax.FieldName(fa)
+	}
+	mapOp := func(ins ssa.Instruction) (op, field string, cl ssa.CallInstruction) {
+		ci, ok := ins.(ssa.CallInstruction)
+		if !ok {
+			return "", "", nil
+		}
+		callee := ssax.StaticCallee(ci)
+		if callee == nil || callee.Signature.Recv() == nil || !strings.HasSuffix(callee.Signature.Recv().Type().String(), "sync.Map") || len(ci.Common().Args) == 0 {
+			return "", "", nil
+		}
+		return callee.Name(), syncMapField(ci.Common().Args[0]), ci
+	}
+	mark := ""
+	ssax.InstrsDeep(sh.copy, func(_ *ssa.Function, ins ssa.Instruction) {
+		if op, f, _ := mapOp(ins); op == "Store" && f != "" && f != sh.memoField {
+			mark = f
+		}
+	})
+	if mark == "" {
+		c.Hard("anchor: the table in which the fill marks a partial file it could not remove")
+		return
+	}
+	fn := sh.open
+	// (a) consulted before the cache look-up
+	var load, lookup ssa.Instruction
+	ssax.Instrs(fn, func(ins ssa.Instruction) {
+		if op, f, _ := mapOp(ins); f == mark && (op == "Load" || op == "LoadAndDelete" || op == "LoadOrStore") && load == nil {
+			load = ins
+		}
+		if cl := fieldInvoke(ins, sh.named, sh.cField, "Open"); cl != nil && lookup == nil {
+			lookup = ins
+		}
+	})
+	c.Check(load != nil && lookup != nil && ssax.Dominates(load, lookup), "R10.7", tk+".Open|mark-consulted-before-cache", p.Pos(fn.Pos()), "the never-serve mark is looked up before the cache is",
+		fmt.Sprintf("%s.Open does not look the name up in the %s table before it opens the cache file: a partial copy that could not be removed is served as if it were complete", tk, mark))
+	// (b) removed only after a successful removal of the file
+	var isCalls []*ssa.Call
+	ssax.Instrs(fn, func(ins ssa.Instruction) {
+		if cl, ok := ins.(*ssa.Call); ok {
+			if _, sent, is := isErrorsIs(cl); is && sent == "ErrNotExist" {
+				isCalls = append(isCalls, cl)
+			}
+		}
+	})
+	var bad string
+	dels := 0
+	var rmErr ssa.Value
+	complete := ssax.EnumPaths(fn, fn.Blocks[0], 0, ssax.NewPathState(), ssax.PathHooks{
+		Instr: func(ps *ssax.PathState, ins ssa.Instruction) {
+			if cl, ok := ins.(*ssa.Call); ok {
+				if callee := ssax.StaticCallee(cl); callee != nil && callee.Name() == "Remove" && pkgPathOf(callee) == mod && len(cl.Call.Args) == 2 && isLoadOfNamedField(ssax.Unwrap(cl.Call.Args[0]), sh.named, sh.cField) {
+					ps.Counts["removed"] = 1
+					rmErr = cl
+				}
+			}
+			op, f, _ := mapOp(ins)
+			if f != mark {
+				return
+			}
+			switch op {
+			case "Delete", "LoadAndDelete", "CompareAndDelete", "Swap", "CompareAndSwap", "Clear", "Store":
+			default:
+				return
+			}
+			dels++
+			ok := false
+			if ps.Counts["removed"] == 1 && rmErr != nil {
+				if ps.NilOf(rmErr) == ssax.IsNil {
+					ok = true
+				}
+				for _, ic := range isCalls {
+					if ps.Resolve(ic.Call.Args[0]) == ps.Resolve(rmErr) {
+						if b, known := ps.BoolOf(ic); known && b {
+							ok = true
+						}
+					}
+				}
+			}
+			if !ok && bad == "" {
+				bad = p.Pos(ins.Pos())
+			}
+		},
+	})
+	key := tk + ".Open|mark-dropped-only-after-removal"
+	switch {
+	case !complete:
+		c.Unknown("R10.7", key, p.Pos(fn.Pos()), "path enumeration exceeded its cap")
+	case dels == 0:
+		c.OK("R10.7", key, p.Pos(fn.Pos()), "Open never takes a mark out of the table")
+	case bad != "":
+		c.Bad("R10.7", key, bad, fmt.Sprintf("%s.Open takes the name out of the %s table at %s on a path on which the leftover cache file was not removed successfully (no Remove before, or its error is neither nil nor ErrNotExist): the retry is still served from the source, but the next Open finds no mark, finds the leftover in the cache and serves the truncated bytes", tk, mark, bad))
+	default:
+		c.OK("R10.7", key, p.Pos(fn.Pos()), "the mark is dropped only after Remove answered nil or ErrNotExist")
 	}
 }
